@@ -389,13 +389,26 @@ def _entry_points(col, rule="C07.R4"):
         "tuple": ("call", ("attr", S.SELF, "_get_row_cache_raise"), (("uop", "*", row),), ()),
         "int": row,
     }
+    want_alt = {"str": ("call", ("attr", S.SELF, "_get_row_cache_raise"), (("uop", "*", sp),), ())}
     got = {}
     for r in sx.of_kind("return"):
-        for c in sx.conds(r.nid):
+        cs = sx.conds(r.nid)
+        kinds = set()
+        for c in cs:
             m = S.match(c, S.fcall("isinstance", row, S.V("t")))
             if m is not None and m["t"][:1] == ("glob",):
-                got[m["t"][1]] = r.value
-    ok = all(got.get(k) == v for k, v in want.items())
+                kinds.add(m["t"][1])
+            elif m is not None and m["t"][:1] == ("tuple",):
+                # isinstance(row, (str, tuple)) together with `not isinstance(row, str)` leaves tuple
+                names = [x[1] for x in m["t"][1] if x[:1] == ("glob",)]
+                rest = [n for n in names if ("uop", "not", S.fcall("isinstance", row, ("glob", n))) not in cs]
+                if len(rest) == 1:
+                    kinds.add(rest[0])
+                elif any(S.fcall("isinstance", row, ("glob", n)) in cs for n in names):
+                    pass
+        for k in kinds:
+            got[k] = r.value
+    ok = all(got.get(k) == v or (k in want_alt and got.get(k) == want_alt[k]) for k, v in want.items())
     col.add(rule, "Table._get_row_index#resolver", ok, sx.loc(sx.fn),
             "string rows are parsed and resolved by the raising resolver; tuple rows go to it directly; integers are positions",
             str({k: S.show(v)[:60] for k, v in got.items()}))
